@@ -137,6 +137,30 @@ Proof.
   destruct (update_pin_info_same_core (raw p)) as [_ [_ [_ [_ [_ H]]]]]. exact H.
 Qed.
 
+(** the stored square, over an arbitrary placed board [P] (so that no proof unfolds [place_all]) *)
+Lemma has_of_at p q s t c : at_ p s = at_ q s -> has p s t c = has q s t c.
+Proof. unfold has. intros ->. reflexivity. Qed.
+
+Lemma raw_from_epsq_valid P p : Consistent P -> epsq P = None ->
+  (forall s, s < 64 -> at_ (abs_board P) s = at_ p s) -> ep_ok p = true ->
+  epsq (raw_from P (builder_of_pos p))
+  = match ep p with Some t => Some (mk_sq (fourth_rk (opp (turn p))) (file_of t)) | None => None end.
+Proof.
+  intros HC HPe Hat Hep.
+  pose proof (builder_ep_of_pos p) as Hb.
+  destruct (ep p) as [t|] eqn:E.
+  - destruct (ep_ok_facts p t Hep E) as (Ht & Hr & ps & Hps & Hpawn & d & x & Hd & Hx & Hown).
+    destruct (ep_geom (turn p) t ps Ht Hr Hps) as [Hpe [_ Hlt]].
+    rewrite <- Hpe in Hb |- *.
+    destruct (ep_adj ps d x Hlt Hd Hx) as [Hxlt Hadj].
+    pose proof (has_abs P x Pawn (turn p) HC Hxlt) as Hh.
+    rewrite (has_of_at _ p x Pawn (turn p) (Hat x Hxlt)), Hown in Hh. symmetry in Hh.
+    apply andb_true_iff in Hh. destruct Hh as [Hh1 Hh2].
+    exact (raw_from_epsq P _ ps x Hb Hadj Hh1 Hh2).
+  - destruct (raw_from_fields P (builder_of_pos p)) as (_ & _ & _ & _ & _ & H).
+    rewrite (H Hb). exact HPe.
+Qed.
+
 (** the stored en-passant square of the from-scratch board of a valid position *)
 Theorem epsq_from_scratch p : pos_valid p = true ->
   epsq (from_scratch p)
@@ -144,23 +168,11 @@ Theorem epsq_from_scratch p : pos_valid p = true ->
 Proof.
   intro Hv. destruct (pos_valid_unpack p Hv) as (_ & _ & _ & _ & _ & _ & _ & _ & _ & _ & Hep).
   rewrite epsq_from_scratch_raw. unfold raw. rewrite raw_of_builder_from.
-  change (bpieces (builder_of_pos p)) with (placement p).
-  pose proof (builder_ep_of_pos p) as Hb.
-  destruct (ep p) as [t|] eqn:E.
-  - destruct (ep_ok_facts p t Hep E) as (Ht & Hr & ps & Hps & Hpawn & d & x & Hd & Hx & Hown).
-    destruct (ep_geom (turn p) t ps Ht Hr Hps) as [Hpe [_ Hlt]].
-    rewrite <- Hpe in Hb.
-    destruct (ep_adj ps d x Hlt Hd Hx) as [Hxlt Hadj].
-    pose proof (place_all_consistent (placement p)) as HC.
-    pose proof (has_abs (place_all (placement p)) x Pawn (turn p) HC Hxlt) as Hh.
-    unfold has in Hh at 1. rewrite (at_place_all (placement p) x Hxlt) in Hh.
-    change (nth (N.to_nat x) (placement p) None) with (at_ p x) in Hh.
-    fold (has p x Pawn (turn p)) in Hh. rewrite Hown in Hh. symmetry in Hh.
-    apply andb_true_iff in Hh. destruct Hh as [Hh1 Hh2]. cbn [pieces] in Hh1.
-    rewrite <- Hpe.
-    apply (raw_from_epsq _ _ ps x Hb Hadj Hh1). exact Hh2.
-  - destruct (raw_from_fields (place_all (placement p)) (builder_of_pos p)) as (_ & _ & _ & _ & _ & H).
-    rewrite (H Hb). destruct (place_all_other (placement p)) as (_ & _ & _ & _ & _ & H6). exact H6.
+  apply raw_from_epsq_valid.
+  - apply place_all_consistent.
+  - exact (proj2 (proj2 (proj2 (proj2 (proj2 (place_all_other _)))))).
+  - intros s Hs. exact (at_place_all _ s Hs).
+  - exact Hep.
 Qed.
 
 (** ** 4. The castling-right numbers *)
@@ -178,8 +190,7 @@ Proof.
   destruct (update_pin_info_same_core (raw p)) as [_ [H1 [H2 [H3 _]]]].
   destruct (raw_of_builder_fields (builder_of_pos p)) as [_ [G1 [G2 [G3 _]]]].
   fold (raw p) in G1, G2, G3.
-  change (bpieces (builder_of_pos p)) with (placement p) in *.
-  destruct (place_all_other (placement p)) as (_ & Q2 & Q3 & _).
+  destruct (place_all_other (bpieces (builder_of_pos p))) as (_ & Q2 & Q3 & _).
   rewrite H1, H2, H3, G1, G2, G3, Q2, Q3. repeat split.
 Qed.
 
@@ -188,21 +199,38 @@ Lemma pos_eq p q :
   placement p = placement q -> turn p = turn q -> wk p = wk q -> wq p = wq q -> bk p = bk q ->
   bq p = bq q -> ep p = ep q -> p = q.
 Proof.
-  destruct p, q. cbn [placement turn wk wq bk bq ep]. intros. subst. reflexivity.
+  destruct p as [a1 a2 a3 a4 a5 a6 a7], q as [b1 b2 b3 b4 b5 b6 b7].
+  cbn [placement turn wk wq bk bq ep]. intros. subst. reflexivity.
+Qed.
+
+(** over an arbitrary board: the seven fields decide the abstraction *)
+Lemma abs_board_eq b p :
+  placement (abs_board b) = placement p -> stm b = turn p ->
+  crW b = cr_add 0 ((if wk p then 1 else 0) + (if wq p then 2 else 0)) ->
+  crB b = cr_add 0 ((if bk p then 1 else 0) + (if bq p then 2 else 0)) ->
+  match epsq b with Some e => Some (uforward (stm b) e) | None => None end = ep p ->
+  abs_board b = p.
+Proof.
+  intros Hpl Hstm HcW HcB Hep. apply pos_eq.
+  - exact Hpl.
+  - exact Hstm.
+  - unfold abs_board. cbn [wk]. rewrite HcW. apply cr_bits.
+  - unfold abs_board. cbn [wq]. rewrite HcW. apply cr_bits.
+  - unfold abs_board. cbn [bk]. rewrite HcB. apply cr_bits.
+  - unfold abs_board. cbn [bq]. rewrite HcB. apply cr_bits.
+  - exact Hep.
 Qed.
 
 Theorem abs_from_scratch p : pos_valid p = true -> abs_board (from_scratch p) = p.
 Proof.
   intro Hv. destruct (pos_valid_unpack p Hv) as (Hlen & _ & _ & _ & _ & _ & _ & _ & _ & _ & Hep).
   destruct (from_scratch_fields p) as [Hstm [HcW HcB]].
-  apply pos_eq.
+  apply abs_board_eq.
   - rewrite (placement_occ _ _ (from_scratch_occ p)). apply placement_place_all, Hlen.
   - exact Hstm.
-  - unfold abs_board. cbn [wk]. rewrite HcW. apply cr_bits.
-  - unfold abs_board. cbn [wq]. rewrite HcW. apply cr_bits.
-  - unfold abs_board. cbn [bk]. rewrite HcB. apply cr_bits.
-  - unfold abs_board. cbn [bq]. rewrite HcB. apply cr_bits.
-  - unfold abs_board. cbn [ep]. rewrite (epsq_from_scratch p Hv), Hstm.
+  - exact HcW.
+  - exact HcB.
+  - rewrite (epsq_from_scratch p Hv), Hstm.
     destruct (ep p) as [t|] eqn:E; [|reflexivity].
     destruct (ep_ok_facts p t Hep E) as (Ht & Hr & ps & Hps & _).
     destruct (ep_geom (turn p) t ps Ht Hr Hps) as [Hpe [Hf _]].
